@@ -23,26 +23,67 @@ type clause struct {
 }
 
 type funcContract struct {
-	pkg      string // package path
-	name     string // e.g. (*lexer).backup, parseParams, makeLessFunc$1
-	requires []*clause
-	ensures  []*clause
-	assigns  []*clause // each may list several lvalues
-	invs     map[int][]*clause
-	decr     map[int]*clause
-	panics   string // "" = must not panic; "*Error" ...
-	inline   bool   // force inlining at call sites (no modular use)
-	trusted  bool   // body not verified (assumed contract)
-	noreturn bool
-	pure     bool
-	props    []string // property ids this function is verified for
-	implements string  // key suffix of a functype/iface contract whose clauses this function must satisfy
-	recovers string    // a deferred function recovers panics of this type (callee panics of that type are not propagated)
-	preciseAppend bool // generate quantified content facts for append (needed only by functional contracts on slices)
-	decrGroup string   // recursion group of the measure: only calls within one group are compared
-	fdecr    []*clause // function-level termination measure (lexicographic), checked at every call in the recursion group
-	file     string
-	line     int
+	pkg           string // package path
+	name          string // e.g. (*lexer).backup, parseParams, makeLessFunc$1
+	requires      []*clause
+	ensures       []*clause
+	assigns       []*clause // each may list several lvalues
+	invs          map[int][]*clause
+	decr          map[int]*clause
+	panics        string // "" = must not panic; "*Error" ...
+	inline        bool   // force inlining at call sites (no modular use)
+	trusted       bool   // body not verified (assumed contract)
+	noreturn      bool
+	pure          bool
+	props         []string // property ids this function is verified for
+	implements    string   // key suffix of a functype/iface contract whose clauses this function must satisfy
+	recovers      string   // a deferred function recovers panics of this type (callee panics of that type are not propagated)
+	atcalls       []*atcall
+	preserves     []string  // parameters whose referent is assumed untouched by heap-writing callees (tree shape)
+	preciseAppend bool      // generate quantified content facts for append (needed only by functional contracts on slices)
+	decrGroup     string    // recursion group of the measure: only calls within one group are compared
+	fdecr         []*clause // function-level termination measure (lexicographic), checked at every call in the recursion group
+	file          string
+	line          int
+}
+
+func (fc *funcContract) hasProp(p string) bool {
+	for _, q := range fc.props {
+		if q == p {
+			return true
+		}
+	}
+	return false
+}
+
+// taggedFor: some clause of the contract is labelled with the property id
+func (fc *funcContract) taggedFor(p string) bool {
+	for _, cl := range fc.requires {
+		if tagProp(cl.tag) == p {
+			return true
+		}
+	}
+	for _, cl := range fc.ensures {
+		if tagProp(cl.tag) == p {
+			return true
+		}
+	}
+	for _, ac := range fc.atcalls {
+		if tagProp(ac.cl.tag) == p {
+			return true
+		}
+	}
+	return false
+}
+
+// atcall: caller-side clause on the k-th call (in generation order) to a callee, e.g.
+//
+//	atcall parser.parseExpression#0 requires callee_rbp == bps[t.Type]
+type atcall struct {
+	callee  string
+	ordinal int
+	cl      *clause
+	seen    bool
 }
 
 type predDef struct {
@@ -61,18 +102,19 @@ type param struct {
 }
 
 type contracts struct {
-	funcs  map[string]*funcContract // key: pkgpath + "." + name
-	preds  map[string]*predDef      // key: name (global across packages; pkg-qualified lookups first)
-	files  []string
-	hashes map[string]string
-	order  []string
-	missing []string // contracts whose function no longer exists
-	fieldQual  map[string]string
-	evalTypes  []string
-	frameRoots []string
+	funcs        map[string]*funcContract // key: pkgpath + "." + name
+	preds        map[string]*predDef      // key: name (global across packages; pkg-qualified lookups first)
+	files        []string
+	hashes       map[string]string
+	order        []string
+	missing      []string // contracts whose function no longer exists
+	fieldQual    map[string]string
+	evalTypes    []string
+	frameRoots   []string
 	freshResults []string
-	globalRoots []string
-	funcFields map[string]string // "pkg.Type.field" -> function key
+	globalRoots  []string
+	funcFields   map[string]string // "pkg.Type.field" -> function key
+	nonnil       map[string]bool   // "field pkg.T.f" | "elems pkg.T" | "payload pkg.T"
 }
 
 func (c *contracts) get(key string) *funcContract { return c.funcs[key] }
@@ -80,7 +122,7 @@ func (c *contracts) get(key string) *funcContract { return c.funcs[key] }
 var clauseKeywords = map[string]bool{"func": true, "pred": true, "spec": true, "requires": true, "ensures": true, "assigns": true,
 	"loop": true, "panics": true, "inline": true, "trusted": true, "noreturn": true, "props": true, "pure": true,
 	"field": true, "evaltype": true, "frameroot": true, "freshresult": true, "globalroot": true,
-	"implements": true, "recovers": true, "decreases": true, "funcfield": true, "precise-append": true}
+	"implements": true, "recovers": true, "decreases": true, "funcfield": true, "precise-append": true, "nonnil": true, "preserves": true, "atcall": true}
 
 func loadContractFile(c *contracts, path string, pkgpath string) error {
 	data, err := os.ReadFile(path)
@@ -130,7 +172,7 @@ func loadContractFile(c *contracts, path string, pkgpath string) error {
 	for _, r := range raws {
 		kw, rest := splitKw(r.text)
 		tag := ""
-		if strings.HasPrefix(rest, "[") && (kw == "ensures" || kw == "requires" || kw == "decreases") {
+		if strings.HasPrefix(rest, "[") && (kw == "ensures" || kw == "requires" || kw == "decreases" || kw == "atcall") {
 			k := strings.Index(rest, "]")
 			tag = rest[1:k]
 			rest = strings.TrimSpace(rest[k+1:])
@@ -195,6 +237,12 @@ func loadContractFile(c *contracts, path string, pkgpath string) error {
 				return fmt.Errorf("%s:%d: bad loop ordinal", path, r.line)
 			}
 			body := strings.TrimSpace(strings.TrimPrefix(strings.TrimSpace(strings.TrimPrefix(rest, f[0])), f[1]))
+			if strings.HasPrefix(body, "[") {
+				if k := strings.Index(body, "]"); k > 0 {
+					tag = body[1:k]
+					body = strings.TrimSpace(body[k+1:])
+				}
+			}
 			cl, err := mk(f[1], n, body)
 			if err != nil {
 				return err
@@ -209,6 +257,25 @@ func loadContractFile(c *contracts, path string, pkgpath string) error {
 			}
 		case "precise-append":
 			cur.preciseAppend = true
+		case "atcall":
+			// atcall <callee>#<k> requires <expr>
+			f := strings.Fields(rest)
+			if cur == nil || len(f) < 3 || f[1] != "requires" || !strings.Contains(f[0], "#") {
+				return fmt.Errorf("%s:%d: bad atcall clause (atcall callee#k requires expr)", path, r.line)
+			}
+			parts := strings.SplitN(f[0], "#", 2)
+			k, err := strconv.Atoi(parts[1])
+			if err != nil {
+				return fmt.Errorf("%s:%d: bad atcall ordinal", path, r.line)
+			}
+			body := strings.TrimSpace(strings.TrimPrefix(strings.TrimSpace(strings.TrimPrefix(rest, f[0])), "requires"))
+			cl, err := mk("atcall", -1, body)
+			if err != nil {
+				return err
+			}
+			cur.atcalls = append(cur.atcalls, &atcall{callee: parts[0], ordinal: k, cl: cl})
+		case "preserves":
+			cur.preserves = append(cur.preserves, strings.Fields(strings.ReplaceAll(rest, ",", " "))...)
 		case "implements":
 			cur.implements = rest
 		case "recovers":
@@ -266,6 +333,18 @@ func loadContractFile(c *contracts, path string, pkgpath string) error {
 			cur = nil
 		case "frameroot": // frameroot pkg.func : entry point of the ownership analysis (parameters are shared memory)
 			c.frameRoots = append(c.frameRoots, strings.Fields(rest)...)
+			cur = nil
+		case "nonnil": // data-structure invariants:  nonnil field T.f ... | nonnil elems T ... | nonnil payload T ...
+			f := strings.Fields(rest)
+			if len(f) < 2 {
+				return fmt.Errorf("%s:%d: bad nonnil directive", path, r.line)
+			}
+			if c.nonnil == nil {
+				c.nonnil = map[string]bool{}
+			}
+			for _, t := range f[1:] {
+				c.nonnil[f[0]+" "+t] = true
+			}
 			cur = nil
 		case "globalroot": // globalroot pkg.func : entry point of the "no write to package-level state" analysis
 			c.globalRoots = append(c.globalRoots, strings.Fields(rest)...)
